@@ -39,7 +39,7 @@ var selMap = map[string]map[string]string{
 	"sync/atomic": {"*": "Atomic"}, // atomic.X -> vsched.AtomicX
 	"time": {"Now": "TimeNow", "Since": "TimeSince", "Until": "TimeUntil", "Sleep": "TimeSleep", "After": "TimeAfter",
 		"AfterFunc": "TimeAfterFunc", "Tick": "TimeTick", "NewTimer": "NewTimer", "NewTicker": "NewTicker", "Timer": "Timer", "Ticker": "Ticker"},
-	"context": {"WithCancel": "CtxWithCancel", "WithTimeout": "CtxWithTimeout", "WithDeadline": "CtxWithDeadline"},
+	"context": {"WithCancel": "CtxWithCancel", "WithTimeout": "CtxWithTimeout", "WithDeadline": "CtxWithDeadline", "AfterFunc": "CtxAfterFunc"},
 	"math/rand": {"New": "RandNew", "NewSource": "RandNewSource", "Rand": "Rand", "Source": "RandSource", "Float64": "RandFloat64",
 		"Intn": "RandIntn", "Int63": "RandInt63", "Int63n": "RandInt63n", "Int": "RandInt", "Shuffle": "RandShuffle", "Seed": "RandSeed"},
 	"runtime": {"Gosched": "Yield"},
